@@ -114,6 +114,24 @@ func (c *octx) account() {
 				lastEnd[k] = e.I
 			}
 		}
+		// completion orders of small batches (evidence: how many of the n! orders were reached)
+		orders := map[bk][]string{}
+		for _, e := range or.All {
+			if e.I > 0 && (e.Kind == "exec_end" || e.Kind == "fb_end") {
+				k := bk{e.N, e.V}
+				orders[k] = append(orders[k], fmt.Sprint(e.I-1))
+			}
+		}
+		for k, ord := range orders {
+			n := c.sc.Nodes[k.n]
+			distinct := map[string]bool{}
+			for _, x := range ord {
+				distinct[x] = true
+			}
+			if ni := len(n.visit(k.v).Items); ni >= 2 && ni <= 4 && len(ord) == ni && len(distinct) == ni {
+				o.Probes[fmt.Sprintf("order/n%d/c%d/%s", ni, min(n.config().Conc, ni), strings.Join(ord, ""))]++
+			}
+		}
 		for k, m := range maxIn {
 			if m >= 2 {
 				o.Probes["items_in_flight_together"]++
